@@ -288,7 +288,7 @@ def variational(S, dist, B, M, n):
     d, Mq, Cq = _make_dist(S, dist, M, bs)
     model = VGP(V.VariationalStrategy, d, labels(0, M, bs), table, make_mean("constant", bs))
     declare_params(S, model.mean_module, "mean_")
-    lik = gpytorch.likelihoods.GaussianLikelihood(batch_shape=torch.Size(bs))
+    lik = gpytorch.likelihoods.GaussianLikelihood(batch_shape=torch.Size(bs), noise_prior=gpytorch.priors.GammaPrior(2.0, 3.0))
     declare_params(S, lik, "lik_", scale=0.3)
     for p in list(model.parameters()) + list(lik.parameters()):
         p.requires_grad_(False)
@@ -310,7 +310,7 @@ def variational(S, dist, B, M, n):
                 for nme, p in rd.named_parameters():
                     p.copy_(src[nme][b])
             rep = VGP(V.VariationalStrategy, rd, labels(0, M), table[b], make_mean("constant"))
-            rl = gpytorch.likelihoods.GaussianLikelihood()
+            rl = gpytorch.likelihoods.GaussianLikelihood(noise_prior=gpytorch.priors.GammaPrior(2.0, 3.0))  # each element: its own prior term
             with torch.no_grad():
                 rep.mean_module.raw_constant.copy_(model.mean_module.raw_constant[b])
                 rl.noise_covar.raw_noise.copy_(lik.noise_covar.raw_noise[b])
